@@ -420,6 +420,32 @@ pub fn handle(st: &mut State, req: &Value) -> Value {
                 Err(e) => err_variant(&e),
             }
         }
+        // a common buildpack idiom: derive values from the layer's env and record them in the layer metadata
+        "env_to_metadata" => {
+            let Some(r) = st.refs.get(jstr(req, "name")) else {
+                return json!({"no_ref": true});
+            };
+            let res = do_ref(r, |x| x.read_env()).and_then(|env| {
+                let mut t = toml::Table::new();
+                for (scope, label) in [(Scope::Build, "build"), (Scope::Launch, "launch"), (Scope::Process("web".into()), "web")] {
+                    let applied = env.apply(scope, &Env::new());
+                    // the work-dir root differs between the compared runs: it is normalised inside values
+                    let root = st.ctx.as_ref().map(|c| c.layers_dir.to_string_lossy().to_string()).unwrap_or_default();
+                    let mut vars: Vec<(String, String)> = applied.iter().map(|(k, v)| (k.to_string_lossy().to_string(), v.to_string_lossy().replace(&root, "<layers>"))).collect();
+                    vars.sort();
+                    let mut inner = toml::Table::new();
+                    for (k, v) in vars {
+                        inner.insert(k, toml::Value::String(v));
+                    }
+                    t.insert(label.to_string(), toml::Value::Table(inner));
+                }
+                do_ref(r, |x| x.write_metadata_table(t.clone()))
+            });
+            match res {
+                Ok(()) => json!({"ok": true}),
+                Err(e) => err_variant(&e),
+            }
+        }
         "write_metadata" | "write_metadata_typed" | "write_env" | "read_env" | "write_sboms" | "write_exec_d" | "path" => {
             let Some(r) = st.refs.get(jstr(req, "name")) else {
                 return json!({"no_ref": true});
